@@ -289,7 +289,7 @@ def cases():
         for k in range(1 if tier == 'quick' else 3):
             out.append({'label': '%s/k%d' % (m.name, k), 'mesh': m, 'fields': fsets[(i + k) % 2],
                         'layout': families.scatter_layouts(m, rnd, max_files=2), 'geom': (i + k + 1) % 3})
-    for r in range(3 if tier == 'quick' else 20):
+    for r in range(3 if tier == 'quick' else 60):
         m = families.random_mesh(rnd, 3, max_levels=2, max_boxes=3, max_extent=4)
         m.name = 'rand%d-3d' % r
         out.append({'label': m.name, 'mesh': m, 'fields': fsets[r % 2], 'layout': families.scatter_layouts(m, rnd, 2), 'geom': r % 3})
